@@ -33,7 +33,7 @@ impl Prop for C11Prop {
             large_pct: 15,
             n_small: (0, 9),
             n_large: (10, 16),
-            regimes: vec![WeightRegime::AllNan, WeightRegime::Dyadic, WeightRegime::Nasty, WeightRegime::MostlyOnes, WeightRegime::SmallInt, WeightRegime::MixedScale, WeightRegime::Tiny],
+            regimes: vec![WeightRegime::AllNan, WeightRegime::Dyadic, WeightRegime::Nasty, WeightRegime::MostlyOnes, WeightRegime::SmallInt, WeightRegime::MixedScale, WeightRegime::Tiny, WeightRegime::HugeDyadic, WeightRegime::MinusculeDyadic],
             kinds,
             shapes: Some(vec![Shape::Gnp, Shape::Gnp, Shape::Cliques, Shape::Cliques, Shape::Star, Shape::Grid, Shape::Bipartite, Shape::Cycle, Shape::Tree, Shape::Union]),
             lifecycle_pct: 25,
@@ -276,7 +276,7 @@ impl Prop for C11Prop {
         }
     }
     fn rule(&self) -> String {
-        "single-edge graphs, directed and undirected, with and without self-loops, isolated and degree-1 nodes, n <= 16 (cliques, G(n,p), stars, grids, bipartite, lifecycle-built), unweighted or positive weights (dyadic, integer, decimal), under 3 (quick) / 5 (thorough) hash keyings; clustering (undirected, Fagiolo directed, Onnela weighted), average_clustering, triangles, transitivity, generalized_degree, square_clustering vs the definitions at 1e-9, coefficients in [0,1], for all nodes and for random non-empty proper subsets (keys = subset, values = full computation); one case in eight is a multi-edge graph, which must be refused with WrongMethod; directed graphs must be refused by the undirected-only functions. distinct_nontrivial = distinct graphs containing a triangle; one case in 800 is a dense graph (1-3 blocks, 60-300 nodes) with 2 100 - 12 500 stored edges under a pool of 2-16 workers (strategy thresholds); in a third of the cases a battery of valid unjudged calls runs first on a sibling graph (same names and edges, other node order), in a fifth the graph is queried on the same object before its last one to three operations are applied (DESIGN.md 0.2); square_clustering is not called on graphs of more than 6 000 edges (minutes per call); the graph object stays at one address from its first operation to the last judged call; on three dense graphs in four whose last operations replace weights in place (same counts; the first replacement moves the largest or the smallest weight) the object is queried (whole graph and subset, weighted) just before those replacements; the whole-graph query is at a random position among the judged selections".into()
+        "single-edge graphs, directed and undirected, with and without self-loops, isolated and degree-1 nodes, n <= 16 (cliques, G(n,p), stars, grids, bipartite, lifecycle-built), unweighted or positive weights (dyadic, integer, decimal, 1e-17 scale, mixed scales, dyadic times 2^400 and times 2^-400 - products of three weights overflow / underflow, ratios are exact), under 3 (quick) / 5 (thorough) hash keyings; clustering (undirected, Fagiolo directed, Onnela weighted), average_clustering, triangles, transitivity, generalized_degree, square_clustering vs the definitions at 1e-9, coefficients in [0,1], for all nodes and for random non-empty proper subsets (keys = subset, values = full computation); one case in eight is a multi-edge graph, which must be refused with WrongMethod; directed graphs must be refused by the undirected-only functions. distinct_nontrivial = distinct graphs containing a triangle; one case in 800 is a dense graph (1-3 blocks, 60-300 nodes) with 2 100 - 12 500 stored edges under a pool of 2-16 workers (strategy thresholds); in a third of the cases a battery of valid unjudged calls runs first on a sibling graph (same names and edges, other node order), in a fifth the graph is queried on the same object before its last one to three operations are applied (DESIGN.md 0.2); square_clustering is not called on graphs of more than 6 000 edges (minutes per call); the graph object stays at one address from its first operation to the last judged call; on three dense graphs in four whose last operations replace weights in place (same counts; the first replacement moves the largest or the smallest weight) the object is queried (whole graph and subset, weighted) just before those replacements; the whole-graph query is at a random position among the judged selections".into()
     }
     fn assumptions(&self) -> Vec<String> {
         vec!["weighted clustering: either max-weight convention is accepted when a self-loop carries the largest weight".into(), "average_clustering over an empty counted set is not checked (0/0)".into(), "square_clustering (no error channel) is exercised on undirected graphs only".into()]
